@@ -11,6 +11,7 @@ claimed={
  "C07":("binary and text parsers decode pipelines of symbolic requests produced by independent encoders, at every read boundary; first-byte disambiguation over all 256 bytes","§C07","symbolic execution of the real parsers + SMT, differential against independent encoders"),
  "C08":("pipelines of requests as bytes through the real parsers, DefaultServer.Loop, the real orcas (9 configurations incl. locking wrappers) and the real responders; replies decoded by independent strict decoders: one complete frame per non-quiet request, opaque echo / request order, one value per hit, one terminator per get, connection in sync after error replies","§C08","symbolic execution of parser+loop+orca+responder + SMT, differential against independent strict decoders"),
  "C09":("orchestrator step with deadlines as first-class symbolic state and full 32-bit symbolic TTLs","§C09","symbolic execution + SMT over 32-bit TTL arithmetic"),
+ "C10":("whole stack (real parser, DefaultServer.Loop, orcas, real std handlers, binary backend protocol) over in-process memcached models with one injected backend fault (10 error statuses; connection closed before / after / inside a reply) at a symbolic request index on L1 or L2: termination, no crash, only complete frames to the client, connections closed, second client served, value read back is old / new / miss and never old after an acknowledged write or delete","§C10","symbolic execution of the whole stack + SMT, fault position/kind as environment choices"),
  "C11":("whole binary header space (2^8 opcodes x 2^16 key x 2^8 extras x 2^32 total) through the real parser and server loop with an allocation log; arbitrary text command lines","§C11","symbolic execution + SMT, allocation-size assertions before concretisation"),
  "C12":("LockedOrca over fault-injecting model handlers: fault position/kind symbolic choices, lock discipline observed through instrumented lockers; sequential part","§C12","symbolic execution + SMT with enumerated fault positions"),
  "C16":("chunk arithmetic kernels with symbolic lengths: sizes for all key lengths, FP chunk count per key length, slice indices, reader step induction, metadata of the real set path on an abstract-length value","§C16","symbolic execution + SMT incl. floating-point theory"),
@@ -19,7 +20,7 @@ claimed={
  "C19":("ring lookup for every 32-bit location on enumerated label sets: specification, order independence, single-removal stability","§C19","symbolic execution + SMT, one path per ring interval"),
 }
 notes={
- "C01":"model handlers stand for the backends (wire level and real std/chunked handlers: C04/C08/C10 harnesses); bounds: 2 keys, values <= 2 bytes, gets <= 2 keys, clock frozen within a command",
+ "C01":"orchestrator step over model handlers, plus a fault-free whole-stack glue run with the real std handlers over the memcached model (thorough: wire-level pipelines of C08); bounds: 2 keys, values <= 2 bytes, gets <= 2 keys, clock frozen within a command",
  "C02":"as C01; eviction invisibility follows from the pre-state ranging over every L1 subset of L2",
  "C03":"2 connections x 1 command; 1 key / 1 stripe (quick), 2 keys / 2 stripes (thorough); more connections and longer programs outside the bound; app/memproxy.go wiring of the constructors is not executed (the constructors it calls are)",
  "C04":"key lengths 5 (quick), 1 and 250 (thorough); value lengths {0,1,2,p-1,p,p+1,2p,2p+1} (+3p thorough); long values symbolic at the chunk borders only; one known finding (surplus chunks of an overwritten longer value survive delete)",
@@ -27,6 +28,7 @@ notes={
  "C07":"lengths concrete per run (listed in evidence), contents symbolic; > 2 requests per pipeline and > 1 cut (quick) outside the bound",
  "C08":"model handlers stand for the backends; pipelines of 2; 2 keys; values <= 2 bytes; text flags <= 9 in quick; stats excluded",
  "C09":"orchestrator level with model handlers, plus the real chunked handler over the memcached model (deadline of every backend entry and the metadata Exptime field); batched handler TTL (gete) not yet part of this check",
+ "C10":"one fault per run; 1 key, 2-byte values; std handlers (chunked handler faults and batching-pool faults not part of this check); promptness is 'no read that would wait for ever', not wall-clock",
  "C11":"consistent frames bounded to 23 body bytes, contradictory frames all covered; text lines of 6 (quick) / 9 (thorough) ASCII bytes",
  "C12":"sequential fault positions 0..1 (quick) / 0..3 (thorough); concurrent deadlock-freedom belongs to the schedule exploration of C03",
  "C16":"FP detour decided for key lengths {1,5,100,250} (quick) + {2,16,50,150,200,249} (thorough); reader step buffer length <= 8",
